@@ -30,6 +30,36 @@ MODULES = {
     "fproxy": "futures/proxy.py", "fnocancel": "futures/nocancel.py", "fapply": "futures/apply.py", "fmap": "futures/map.py",
     "fsequence": "futures/sequence.py", "ftimeout": "futures/timeout.py", "fcheck": "futures/check.py",
     "bind": "bind.py", "wrap": "wrap.py", "wrapped": "wrapped.py", "executors": "executors.py", "sync": "sync.py",
+    "logwrap": "logwrap.py", "metrics_null": "metrics/null.py", "futures_init": "futures/__init__.py",
+}
+
+# property -> modules whose code its machines, kernels, families and monitors represent (Props/Cxx_src.v, written by
+# `tools/srcfacts.py --props`).  logwrap / metrics_null are executed by every executor operation; futures_init binds the
+# public f_* names.
+_EXEC = ["logwrap", "metrics_null"]
+PROP_MODULES = {
+    "C01": ["executors", "wrap", "wrapped", "sync", "common", "map", "flat_map", "retry", "poll", "throttle", "timeout", "cos", "helpers"] + _EXEC,
+    "C02": ["common", "map", "flat_map", "fbool", "fzip", "fbase", "poll", "throttle", "retry", "fmap", "fcheck", "timeout", "fproxy",
+            "fnocancel", "fapply", "fsequence", "ftimeout", "futures_init"] + _EXEC,
+    "C03": ["common", "map", "flat_map", "retry", "poll", "throttle", "timeout", "fbool", "fzip", "fsequence", "fapply", "fmap", "fbase"] + _EXEC,
+    "C04": ["common", "map", "retry", "poll", "throttle", "timeout", "cos", "helpers", "fbool", "sync", "flat_map", "fzip", "fbase", "event"] + _EXEC,
+    "C05": ["retry", "common", "helpers", "event"] + _EXEC,
+    "C06": ["retry", "common", "map", "flat_map", "fbool", "fzip", "fbase", "poll", "throttle", "timeout", "cos", "fnocancel", "fmap",
+            "fsequence", "fapply"] + _EXEC,
+    "C07": ["throttle", "map", "common", "helpers", "event"] + _EXEC,
+    "C08": ["poll", "common", "helpers", "event"] + _EXEC,
+    "C09": ["timeout", "map", "common", "ftimeout", "helpers", "event"] + _EXEC,
+    "C10": ["cos", "helpers"] + _EXEC,
+    "C11": ["helpers", "retry", "poll", "throttle", "timeout", "map", "flat_map", "cos", "sync", "event", "common"] + _EXEC,
+    "C12": ["event", "retry", "poll", "throttle", "timeout", "cos", "common", "map", "flat_map", "helpers"] + _EXEC,
+    "C13": ["map", "flat_map", "common", "fmap", "futures_init"] + _EXEC,
+    "C14": ["fbool", "fbase", "fcheck", "common", "futures_init"] + _EXEC,
+    "C15": ["fzip", "fbase", "fsequence", "fcheck", "common", "futures_init"] + _EXEC,
+    "C16": ["map", "flat_map", "common", "fapply", "fmap", "fbase", "fcheck", "futures_init"] + _EXEC,
+    "C17": ["map", "common", "fproxy", "fnocancel", "futures_init"] + _EXEC,
+    "C18": ["common", "map", "flat_map", "poll", "retry", "throttle", "fbool", "fzip", "timeout", "cos", "helpers", "fbase"] + _EXEC,
+    "C19": ["bind", "wrap", "wrapped", "executors", "flat_map", "map"] + _EXEC,
+    "C20": ["metrics", "retry", "throttle", "metrics_prom", "poll", "timeout", "map", "flat_map", "cos", "sync", "common"] + _EXEC,
 }
 
 
@@ -42,7 +72,15 @@ def _is_log(s):
         return False
     if s.value.func.attr not in ("debug", "info", "warning", "warn", "error", "exception", "critical", "log"):
         return False
-    return "log" in ast.unparse(s.value.func.value).lower()
+    if "log" not in ast.unparse(s.value.func.value).lower():
+        return False
+    # a logging call is dropped only when evaluating its arguments cannot do anything: names, attributes, constants
+    # (`self._log.debug("Cancel %s: %s", f, cancel)`); a call, subscript or operator inside them stays in the normal form
+    for a in list(s.value.args) + [k.value for k in s.value.keywords]:
+        for n in ast.walk(a):
+            if not isinstance(n, (ast.Name, ast.Attribute, ast.Constant, ast.Load, ast.Tuple, ast.List)):
+                return False
+    return True
 
 
 class _Strip(ast.NodeTransformer):
@@ -68,7 +106,11 @@ def normal_forms(relpath):
     out = []
     residue = []
     for n in tree.body:
-        if isinstance(n, (ast.Import, ast.ImportFrom)) or _is_doc(n):
+        if _is_doc(n):
+            continue
+        if isinstance(n, (ast.Import, ast.ImportFrom)):
+            # what a name is bound to is part of the meaning of every definition below it (`from threading import Lock as RLock`)
+            residue.append(ast.unparse(n))
             continue
         if isinstance(n, (ast.FunctionDef, ast.AsyncFunctionDef)):
             out.append((n.name, ast.unparse(_Strip().visit(n))))
@@ -144,8 +186,29 @@ def diff():
     return out
 
 
+def props():
+    """write coq/Props/Cxx_src.v for every property from PROP_MODULES"""
+    for prop, mods in sorted(PROP_MODULES.items()):
+        low = prop.lower()
+        lines = ["(* %s -- source facts.  The machines and monitors this property rests on were written against, and validated on,\n"
+                 "   these definitions of /repo; tools/srcfacts.py regenerates their normal-form digests on every run (coq/Gen/Src_*.v).\n"
+                 "   Statements only.  Written by `tools/srcfacts.py --props` from PROP_MODULES. *)" % prop,
+                 "From Coq Require Import List String.",
+                 "From ME Require Import Model.SrcExpected %s\n  %s." % (" ".join("Gen.Src_%s" % m for m in mods),
+                                                                       " ".join("Proofs.Src_ok_%s" % m for m in mods)), ""]
+        for m in mods:
+            lines += ["(* more_executors/_impl/%s *)" % MODULES[m],
+                      "Theorem %s_source_%s : Src_%s.facts = expected_%s.\nProof. exact src_%s_ok. Qed." % (low, m, m, m, m)]
+        lines.append("")
+        lines += ["Print Assumptions %s_source_%s." % (low, m) for m in mods]
+        open(os.path.join(VERIF, "coq", "Props", "%s_src.v" % prop), "w").write("\n".join(lines) + "\n")
+
+
 if __name__ == "__main__":
-    if "--update" in sys.argv:
+    if "--props" in sys.argv:
+        props()
+        print("Props/Cxx_src.v rewritten for %d properties" % len(PROP_MODULES))
+    elif "--update" in sys.argv:
         update()
         print("expected source facts rewritten for %d modules" % len(MODULES))
     elif "--diff" in sys.argv:
